@@ -272,4 +272,73 @@ def getTable (v : Variant) (q : Req) (lods : List Lod) (store : List (List (Opti
   | none => none
   | some r => some (sortRows q r.1, r.2)
 
+/-! ### handler.go: handleGetTable — the order in which the LODs reach getTableFromLODs -/
+
+/-- `GetLODs` returns the LODs in ascending time order. `Caller.keeps` is handleGetTable after
+    /verif/fixes/C25-descending-lod-order.diff (the list is passed on as it is); `Caller.reversesFromEnd` is the code
+    before it, which reversed the list for `fromEnd` although getTableFromLODs walks it from the end itself. -/
+inductive Caller | keeps | reversesFromEnd
+deriving DecidableEq, Repr
+
+def callerOrder {α} (c : Caller) (fromEnd : Bool) (l : List α) : List α :=
+  match c with
+  | .keeps => l
+  | .reversesFromEnd => if fromEnd then l.reverse else l
+
+/-- handleGetTable from the LOD list on: `lods` ascending in time, `store[i][k]` the answer for handler-what `i`, LOD `k` -/
+def handleGetTable (c : Caller) (v : Variant) (q : Req) (lods : List Lod) (store : List (List (Option (List (List Row))))) :
+    Option (List ORow × Bool) :=
+  getTable v q (callerOrder c q.win.fromEnd lods) (store.map (callerOrder c q.win.fromEnd))
+
+/-! ### the row marker stored in a table row by the code before 8d8821bd (shared `rowRepr.Tags` backing array)
+
+  Before the fix `var rowRepr RowMarker` was declared once per storage answer and `rowRepr.Tags = rowRepr.Tags[:0]`
+  re-used its backing array for every row of that answer. Every table row created while one answer was processed
+  kept a slice of that one array, so after the answer was processed all of them showed the grouped tags of the LAST
+  row of the answer (created or not). The final sort and the FromRow/ToRow markers of the response read these tags.
+  `batches` = per processed storage answer the rows handed to the row loop, in processing order. -/
+
+/-- like the LOD loop, but keeps the rows of each storage answer apart -/
+def passBatches (v : Variant) (q : Req) : List (Lod × Option (List (List Row))) → Nat → List (List Row)
+  | [], _ => []
+  | (l, ans) :: rest, cnt =>
+    if lodSkipped q l then passBatches v q rest cnt
+    else match ans with
+      | none => []
+      | some groups =>
+        let lq := limitQueries v q.win groups (q.limit - cnt)
+        let rows := lq.1.filter (fun r => !timeSkipped q r)
+        if lq.2 then [rows] else rows :: passBatches v q rest (cnt + rows.length)
+
+/-- the grouped tags the old code left in the row marker of the table row with key `k` -/
+def aliasedTags (q : Req) (batches : List (List Row)) (k : Key) : List Int :=
+  match batches.find? (fun b => b.any (fun r => r.key == k)) with
+  | some b => match b.getLast? with
+    | some r => q.gby.map (tagAt r.key)
+    | none => q.gby.map (tagAt k)
+  | none => q.gby.map (tagAt k)
+
+def aliasedRepr (q : Req) (batches : List (List Row)) (k : Key) : RowRepr :=
+  { reprOf q k with tags := aliasedTags q batches k }
+
+/-- the old code's final sort compares the aliased markers (ascending; rows it cannot tell apart keep the model's
+    insertion order, which Go's sort does not promise either) -/
+def insertAliased (q : Req) (bs : List (List Row)) (x : ORow) : List ORow → List ORow
+  | [] => [x]
+  | y :: ys => if less (aliasedRepr q bs x.key) (aliasedRepr q bs y.key) then x :: y :: ys else y :: insertAliased q bs x ys
+
+def sortAliased (q : Req) (bs : List (List Row)) : List ORow → List ORow
+  | [] => []
+  | x :: xs => insertAliased q bs x (sortAliased q bs xs)
+
+/-- getTableFromLODs before 8d8821bd for an ascending request: rows as the old loops build them, ordered by the
+    aliased markers; each row is returned with the marker tags it carries -/
+def getTableAliased (q : Req) (lods : List Lod) (store : List (List (Option (List (List Row))))) :
+    Option (List (Key × List Int)) :=
+  let todo := (q.cols.zip store).map (fun p => (p.1, dir q.win.fromEnd (lods.zip p.2)))
+  let bs := todo.flatMap (fun t => passBatches .old q t.2 0)
+  match whatLoop .old q [] todo [] false with
+  | none => none
+  | some r => some ((sortAliased q bs r.1).map (fun o => (o.key, aliasedTags q bs o.key)))
+
 end SH.Table
